@@ -27,6 +27,7 @@ import (
 
 	"github.com/rulego/streamsql/types"
 	"github.com/rulego/streamsql/utils/cast"
+	"github.com/rulego/streamsql/utils/fieldpath"
 )
 
 // Ensure SessionWindow struct implements Window interface
@@ -660,6 +661,10 @@ func extractSessionCompositeKey(data any, keys []string) string {
 		parts := make([]string, 0, len(keys))
 		for _, k := range keys {
 			val, exists := m[k]
+			if !exists && fieldpath.IsNestedField(k) {
+				// a nested path key (GROUP BY d.x): resolve it as the global window does
+				val, exists = fieldpath.GetNestedField(m, k)
+			}
 			parts = append(parts, encodeKeyPart(val, exists))
 		}
 		return strings.Join(parts, "|")
